@@ -287,10 +287,14 @@ class Explorer:
         """symbolic selector over a concrete list: returns one element per path"""
         options = list(options)
         s = self.fresh_int(name, 0, len(options) - 1)
-        for i, o in enumerate(options[:-1]):
-            if s == i:
-                return o
-        return options[-1]
+        lo, hi = 0, len(options) - 1
+        while lo < hi:  # balanced decisions: subtrees of equal size split well over the process pool
+            mid = (lo + hi) // 2
+            if s <= mid:
+                hi = mid
+            else:
+                lo = mid + 1
+        return options[lo]
 
     def fresh_bytes(self, name, lo, hi=None, opaque=False):
         """arbitrary byte string; opaque=True: content is never inspected byte-wise against
@@ -401,7 +405,7 @@ class Explorer:
         res.ndecisions = len(self.decisions)
         return res
 
-    def explore(self, fn, prefixes=None, stop_when_queued=None):
+    def explore(self, fn, prefixes=None, stop_when_queued=None, yield_after_s=None):
         """exploration of the path tree; returns list of PathResult.
         Default order is depth-first.  With stop_when_queued the order is breadth-first (shallowest
         prefix first) and exploration stops once that many prefixes are queued - the remaining work
@@ -413,6 +417,8 @@ class Explorer:
         while self.work:
             if stop_when_queued is not None and len(self.work) >= stop_when_queued:
                 break
+            if yield_after_s is not None and results and time.time() - t0 > yield_after_s:
+                break  # the rest of this subtree (self.work) goes back to the pool
             prefix = self.work.pop(0) if stop_when_queued is not None else self.work.pop()
             if self.paths >= self.max_paths:
                 raise Unsupported("max paths %d reached" % self.max_paths)
